@@ -13,10 +13,14 @@ from . import base
 PACKS = {"n": 0}
 
 
-def set_pack_limit(v):
+def set_pack_limit(v, server=None):
+    """`server`: also for the mailboxes that are active already (the limit is copied when a Mailbox object is made)."""
     from asimap.mbox import Mailbox
 
     Mailbox.FOLDER_SIZE_PACK_LIMIT = v
+    if server is not None:
+        for mb in list(server.active_mailboxes.values()):
+            mb.folder_size_pack_limit = v
     if not getattr(Mailbox, "_verif_pack_counted", False):
         orig = Mailbox._pack_if_necessary
 
